@@ -396,19 +396,40 @@ func marshalStructWithMap[T any](s *T, mapField string) ([]byte, error) {
 // Here jsonNames also returns fields from embedded structs, hence this function
 // handles embedded structs as well.
 func unmarshalStructWithMap[T any](data []byte, v *T, mapField string) error {
-	// Unmarshal into the struct, ignoring unknown fields.
-	if err := json.Unmarshal(data, v); err != nil {
+	// encoding/json matches object keys to struct fields case-insensitively, so a key
+	// like "TYPE" would be decoded into the field for "type" instead of being kept as
+	// an unknown key. Split the object by exact (case-sensitive) name first.
+	var raw map[string]json.RawMessage
+	if err := json.Unmarshal(data, &raw); err != nil || raw == nil {
+		// Not an object: let encoding/json report the error against the struct.
+		return json.Unmarshal(data, v)
+	}
+	names := jsonNames(reflect.TypeFor[T]())
+	known := make(map[string]json.RawMessage, len(raw))
+	var m map[string]any
+	for k, r := range raw {
+		if names[k] {
+			known[k] = r
+			continue
+		}
+		var x any
+		if err := json.Unmarshal(r, &x); err != nil {
+			return err
+		}
+		if m == nil {
+			m = map[string]any{}
+		}
+		m[k] = x
+	}
+	// Unmarshal the known keys into the struct.
+	knownData, err := json.Marshal(known)
+	if err != nil {
 		return err
 	}
-	// Unmarshal into the map.
-	m := map[string]any{}
-	if err := json.Unmarshal(data, &m); err != nil {
+	if err := json.Unmarshal(knownData, v); err != nil {
 		return err
 	}
-	// Delete from the map the fields of the struct.
-	for n := range jsonNames(reflect.TypeFor[T]()) {
-		delete(m, n)
-	}
+	// The rest goes into the map.
 	if len(m) != 0 {
 		reflect.ValueOf(v).Elem().FieldByName(mapField).Set(reflect.ValueOf(m))
 	}
